@@ -444,9 +444,9 @@ func init() {
 										cfgs = append(cfgs, c16Cfg{Mech: m, Cred: cr, Logger: lg, SMTP: true, Toggle: tg})
 									}
 									for ca := 1; ca <= 6; ca++ {
-									cfgs = append(cfgs, c16Cfg{Mech: m, Cred: cr, Logger: lg, SMTP: true, CloseAt: ca})
-								}
-								cfgs = append(cfgs, c16Cfg{Mech: m, Cred: cr, Logger: lg, LogAuth: la, SMTP: sm, NoHello: true, Retry: true})
+										cfgs = append(cfgs, c16Cfg{Mech: m, Cred: cr, Logger: lg, SMTP: true, CloseAt: ca})
+									}
+									cfgs = append(cfgs, c16Cfg{Mech: m, Cred: cr, Logger: lg, LogAuth: la, SMTP: sm, NoHello: true, Retry: true})
 								}
 							}
 						}
